@@ -122,7 +122,7 @@ def gen(ctx):
                  chunklen=r.choice([None, 1, 2, 3, max(sh[0], 1), sh[0] + 1]),
                  intshape=r.random() < 0.3)
         if r.random() < 0.5:
-            c['fillfunc'] = r.choice(['idx', 'dbl', 'mod', 'half', 'sq'])
+            c['fillfunc'] = r.choice(['idx', 'dbl', 'mod', 'half', 'sq', 'cum', 'rowsum'])
         else:
             c['fill'] = r.choice([None, 0, 1, 23, 2.5, -0.0, -0.0])      # -0.0: the sign bit must survive
         cases.append(c)
